@@ -49,6 +49,24 @@ fn main() {
     if cmd == "feedsim" {
         std::process::exit(feedsim::run(&args));
     }
+    if cmd == "render" {
+        // what a line-by-line client prints for well-formed frames: the library's own rendering
+        // (JSON array, one entry per hex line of --hex-file: text or null when it does not decode)
+        let path = get("--hex-file").unwrap_or_default();
+        let txt = std::fs::read_to_string(&path).unwrap_or_default();
+        let out: Vec<serde_json::Value> = txt
+            .lines()
+            .map(|l| match vref::bits::unhex(l.trim()) {
+                Some(b) if !b.is_empty() && !b.iter().all(|x| *x == 0) => match adsb_deku::Frame::from_bytes(&b) {
+                    Ok(f) => serde_json::Value::String(f.to_string()),
+                    Err(_) => serde_json::Value::Null,
+                },
+                _ => serde_json::Value::Null,
+            })
+            .collect();
+        println!("{}", serde_json::Value::Array(out));
+        std::process::exit(0);
+    }
     if cmd == "selfcheck" {
         match vref::selfcheck::run() {
             Ok(notes) => {
